@@ -32,7 +32,7 @@ ASSUMPTIONS = [
     "side's cipherNames force them",
 ]
 NONTRIVIAL = ["tuple"]
-DEADLINE = {"quick": 70, "thorough": 900}
+DEADLINE = {"quick": 100, "thorough": 900}
 
 KEYS = {"rsa": ("serverX509Cert.pem", "serverX509Key.pem"),
         "rsapss": ("serverRSAPSSCert.pem", "serverRSAPSSKey.pem"),
